@@ -41,20 +41,82 @@ def _is_legacy_test(t: ast.AST) -> bool | None:
     return None
 
 
+def _name_values(prog, fi, e) -> set | None:
+    """the constant strings an HDF5 member name expression can stand for (None: unknown)"""
+    from .. import symx
+
+    e = symx.strip_wrappers(e)
+    if isinstance(e, ast.Constant) and isinstance(e.value, str):
+        return {e.value}
+    if isinstance(e, ast.IfExp):
+        a_, b_ = _name_values(prog, fi, e.body), _name_values(prog, fi, e.orelse)
+        return None if a_ is None or b_ is None else a_ | b_
+    ex = symx.Explorer(prog)
+    ex._stack.append(fi)
+    # ELEM(<literal sequence>) / ELEM(zip(<literals>))[i]: any element
+    idx = None
+    base = e
+    if isinstance(e, ast.Subscript) and isinstance(e.slice, ast.Constant) and isinstance(e.slice.value, int):
+        idx, base = e.slice.value, symx.strip_wrappers(e.value)
+    if isinstance(base, ast.Call) and isinstance(base.func, ast.Name) and base.func.id == symx.ELEM and base.args:
+        items = ex.literal_items(base.args[0], fi)
+        if items is not None:
+            vals = set()
+            for it in items:
+                v = it.elts[idx] if idx is not None and isinstance(it, ast.Tuple) and idx < len(it.elts) else it
+                if not (isinstance(v, ast.Constant) and isinstance(v.value, str)):
+                    return None
+                vals.add(v.value)
+            return vals
+    return None
+
+
+def _hdf_paths(prog, m: FuncInfo, legacy: bool | None):
+    from .. import symx
+
+    def oracle(t):
+        if isinstance(t, ast.Call) and (dotted(t.func) or "").split(".")[-1] == "is_legacy_dataset":
+            return legacy
+        return None
+
+    def watch(x):
+        return isinstance(x, ast.Subscript) and isinstance(x.ctx, ast.Load) and not isinstance(x.slice, ast.Slice)
+
+    return symx.explore(prog, m, oracle=oracle if legacy is not None else None, inline=symx.inline_private_helpers(prog, public={"to_hdf", "from_hdf", "write_version_tag", "load_version_tag", "set_patch_pair", "from_dict", "to_dict"}), watch=watch)
+
+
 def _hdf_names_written(prog, m: FuncInfo) -> set[str]:
+    """names created on the destination group on any path (symbolic store: loops over literal name tables are
+    unrolled, module constants and helpers looked through)"""
     out = set()
-    for c in calls_in(m):
-        if isinstance(c.func, ast.Attribute) and c.func.attr in ("create_dataset", "create_group", "require_group", "require_dataset") and c.args:
-            a = c.args[0]
-            if isinstance(a, ast.Constant):
-                out.add(a.value)
-            elif isinstance(a, ast.Name):
-                # loop variable over a literal tuple / zip of literal tuples
-                for v in _literal_values(m, a.id):
-                    out.add(v)
-        tg = prog.resolve_call(m, c)
-        if any(t.name == "write_version_tag" for t in tg.funcs()):
-            out.add("version")
+    for p in _hdf_paths(prog, m, None):
+        for ev in p.calls():
+            c = ev.expr
+            if isinstance(c.func, ast.Attribute) and c.func.attr in ("create_dataset", "create_group", "require_group", "require_dataset") and c.args:
+                vals = _name_values(prog, m, c.args[0])
+                if vals is None:
+                    raise AnalysisError(f"C11.R1: name of the HDF5 member created by `{unparse(ev.node)[:60]}` in {m.short} cannot be determined")
+                out |= vals
+            if any(t.name == "write_version_tag" for t in prog.resolve_call(ev.fi, ev.node).funcs()):
+                out.add("version")
+    return out
+
+
+def _hdf_names_read(prog, m: FuncInfo) -> set[str]:
+    """names subscripted on the source group on the current-format paths"""
+    src = m.param_names()[1] if len(m.param_names()) > 1 else "source"
+    out = set()
+    for p in _hdf_paths(prog, m, False):
+        for ev in p.events:
+            if ev.kind != "expr" or not isinstance(ev.expr, ast.Subscript):
+                continue
+            base = ev.expr.value
+            if not (isinstance(base, ast.Name) and base.id == src):
+                continue
+            vals = _name_values(prog, m, ev.expr.slice)
+            if vals is None:
+                raise AnalysisError(f"C11.R1: name of the HDF5 member read by `{unparse(ev.node)[:60]}` in {m.short} cannot be determined")
+            out |= vals
     return out
 
 
@@ -76,55 +138,6 @@ def _literal_values(m: FuncInfo, name: str) -> list:
                 src = vals[0] if len(vals) == 1 else None
             if isinstance(src, (ast.Tuple, ast.List)):
                 out.extend(e.value for e in src.elts if isinstance(e, ast.Constant))
-    return out
-
-
-def _hdf_names_read(prog, m: FuncInfo) -> set[str]:
-    """names subscripted on the source group outside legacy-only branches"""
-    src = m.param_names()[1] if len(m.param_names()) > 1 else "source"
-    out = set()
-
-    def visit(stmts, legacy: bool) -> None:
-        for st in stmts:
-            if isinstance(st, ast.If):
-                lg = _is_legacy_test(st.test)
-                if lg is None:
-                    visit(st.body, legacy)
-                    visit(st.orelse, legacy)
-                else:
-                    visit(st.body, legacy or lg)
-                    visit(st.orelse, legacy or (not lg))
-                scan(st.test, legacy)
-                continue
-            if isinstance(st, (ast.FunctionDef, ast.AsyncFunctionDef)):
-                visit(st.body, legacy)
-                continue
-            scan(st, legacy)
-            for attr in ("body", "orelse", "finalbody"):
-                pass
-
-    def scan(node, legacy: bool) -> None:
-        if legacy:
-            return
-        for x in ast.walk(node):
-            if isinstance(x, ast.Subscript) and isinstance(x.value, ast.Name) and x.value.id in (src, "root"):
-                sl = x.slice
-                if isinstance(sl, ast.Constant) and isinstance(sl.value, str):
-                    out.add(sl.value)
-                elif isinstance(sl, ast.Name):
-                    for v in all_def_values(m.node, sl.id):
-                        if isinstance(v, ast.IfExp) and _is_legacy_test(v.test) is not None:
-                            keep = v.orelse if _is_legacy_test(v.test) else v.body
-                            if isinstance(keep, ast.Constant):
-                                out.add(keep.value)
-                        elif isinstance(v, ast.Constant):
-                            out.add(v.value)
-                    for v in _literal_values(m, sl.id):
-                        out.add(v)
-            if isinstance(x, ast.Compare) and any(isinstance(o, ast.In) for o in x.ops) and isinstance(x.comparators[0], ast.Name) and x.comparators[0].id in (src, "root"):
-                pass
-
-    visit(m.node.body, False)
     return out
 
 
